@@ -64,6 +64,9 @@ var proxyInstalled bool
 // freshState makes the library forget everything it may remember from earlier
 // calls: an empty type cache and flushed sync.Pools (two GCs: pool + victim).
 func freshState() {
+	for k := range rmSlots {
+		delete(rmSlots, k)
+	}
 	if proxyInstalled {
 		proxy.set(valid.NewLRU(512))
 	}
